@@ -195,6 +195,16 @@ class Worker:
         addition/enqueueing. This is necessary to ensure that the idle status is
         always correct.
         """
+        self.mailbox_mutex = Lock()
+        """
+        A lock making await registration atomic w.r.t. result arrival.
+
+        The main thread registers a waiting task on a mailbox and then checks
+        if the box is already full, while the incoming thread deposits results
+        and wakes the registered task. Without mutual exclusion, a result
+        landing between the registration and the check wakes the task twice.
+        """
+
         # Send out every client emitted log message upstream
         old_factory = logging.getLogRecordFactory()
 
@@ -325,18 +335,20 @@ class Worker:
             return
 
         box = self._mailboxes[mailbox_id]
-        box.deposit_result(result)
 
-        if box.has_task_waiting:
-            assert box.dest_addr is not None
-            task = self._tasks[box.dest_addr]
+        with self.mailbox_mutex:
+            box.deposit_result(result)
 
-            if task.wake_on_next or box.ready:
-                # print(f'Worker {self._id} is waking task
-                # {task.return_address}, with {task.wake_on_next=},
-                # {box.ready=}')
-                self._ready_task_ids.put(box.dest_addr)  # Wake it
-                box.dest_addr = None  # Prevent double wake
+            if box.has_task_waiting:
+                assert box.dest_addr is not None
+                task = self._tasks[box.dest_addr]
+
+                if task.wake_on_next or box.ready:
+                    # print(f'Worker {self._id} is waking task
+                    # {task.return_address}, with {task.wake_on_next=},
+                    # {box.ready=}')
+                    self._ready_task_ids.put(box.dest_addr)  # Wake it
+                    box.dest_addr = None  # Prevent double wake
 
     def _handle_cancel(self, addr: RuntimeAddress) -> None:
         """
@@ -478,22 +490,24 @@ class Worker:
 
         box = self._mailboxes[future.mailbox_id]
 
-        # Let the mailbox know this task is waiting
-        box.dest_addr = task.return_address
-        task.desired_box_id = future.mailbox_id
+        with self.mailbox_mutex:
+            # Let the mailbox know this task is waiting
+            box.dest_addr = task.return_address
+            task.desired_box_id = future.mailbox_id
 
-        # if future._next_flag:
-        #     # Set from Worker.next, implies the task wants the next result
-        #     # if box.ready:
-        #     #     m = 'Cannot wait for next results on a complete task.'
-        #     #     raise RuntimeError(m)
-        #     task.wake_on_next = True
-        task.wake_on_next = future._next_flag
-        # print(f'Worker {self._id} is waiting on task
-        # {task.return_address}, with {task.wake_on_next=}')
+            # if future._next_flag:
+            #     # Set from Worker.next, implies the task wants the next
+            #     # result
+            #     # if box.ready:
+            #     #     m = 'Cannot wait for next results on a complete task.'
+            #     #     raise RuntimeError(m)
+            #     task.wake_on_next = True
+            task.wake_on_next = future._next_flag
+            # print(f'Worker {self._id} is waiting on task
+            # {task.return_address}, with {task.wake_on_next=}')
 
-        if box.ready:
-            self._ready_task_ids.put(task.return_address)
+            if box.ready:
+                self._ready_task_ids.put(task.return_address)
 
     def _process_task_completion(self, task: RuntimeTask, result: Any) -> None:
         """Package and send out task result."""
